@@ -237,50 +237,47 @@ def lineEnd (cs : Str) : Bool :=
   | [] => true
   | c :: _ => c = '#'
 
+/-- an empty line or a comment line (after leading white space) -/
+def isBlank : Str → Bool
+  | [] => true
+  | c :: _ => c == '#'
+
+/-- the final '.', then optional white space and comment -/
+def endOfStatement (r : Str) : Bool :=
+  match skipWs r with
+  | '.' :: r' => lineEnd r'
+  | _ => false
+
 /-- [2] triple ::= subject predicate object '.'   on one line (no EOL inside);
     `some none` = empty / comment line. -/
 def NT.parseLine (line : Str) : Option (Option Triple) :=
-  match skipWs line with
-  | [] => some none
-  | c :: cs =>
-    if c = '#' then some none else
-    match readTerm .subj (c :: cs) with
+  if isBlank (skipWs line) then some none else
+  match readTerm .subj (skipWs line) with
+  | none => none
+  | some (s, r1) =>
+    match readTerm .pred (skipWs r1) with
     | none => none
-    | some (s, r1) =>
-      match readTerm .pred (skipWs r1) with
+    | some (p, r2) =>
+      match readTerm .obj (skipWs r2) with
       | none => none
-      | some (p, r2) =>
-        match readTerm .obj (skipWs r2) with
-        | none => none
-        | some (o, r3) =>
-          match skipWs r3 with
-          | '.' :: r4 => if lineEnd r4 then some (some (s, p, o)) else none
-          | _ => none
+      | some (o, r3) => if endOfStatement r3 then some (some (s, p, o)) else none
 
 /-- N-Quads [2] statement ::= subject predicate object graphLabel? '.' -/
 def NQ.parseLine (line : Str) : Option (Option Quad) :=
-  match skipWs line with
-  | [] => some none
-  | c :: cs =>
-    if c = '#' then some none else
-    match readTerm .subj (c :: cs) with
+  if isBlank (skipWs line) then some none else
+  match readTerm .subj (skipWs line) with
+  | none => none
+  | some (s, r1) =>
+    match readTerm .pred (skipWs r1) with
     | none => none
-    | some (s, r1) =>
-      match readTerm .pred (skipWs r1) with
+    | some (p, r2) =>
+      match readTerm .obj (skipWs r2) with
       | none => none
-      | some (p, r2) =>
-        match readTerm .obj (skipWs r2) with
+      | some (o, r3) =>
+        if endOfStatement r3 then some (some (s, p, o, none)) else
+        match readTerm .graph (skipWs r3) with
         | none => none
-        | some (o, r3) =>
-          match skipWs r3 with
-          | '.' :: r4 => if lineEnd r4 then some (some (s, p, o, none)) else none
-          | r3' =>
-            match readTerm .graph r3' with
-            | none => none
-            | some (g, r4) =>
-              match skipWs r4 with
-              | '.' :: r5 => if lineEnd r5 then some (some (s, p, o, some g)) else none
-              | _ => none
+        | some (g, r4) => if endOfStatement r4 then some (some (s, p, o, some g)) else none
 
 /-- [7] EOL ::= [#xD#xA]+ : cut the document into lines (empty lines are kept, they parse to `none`) -/
 def splitLines : Str → List Str
@@ -564,26 +561,26 @@ def commonLen : List Str → List Str → Nat
   | a :: as, b :: bs => if a = b then commonLen as bs + 1 else 0
   | _, _ => 0
 
-/-- Choice-driven relative reference for `t` against `base` (both absolute, with authority):
+/-- a path that starts with "/" (at least `["", x]`) -/
+def absPath (p : List Str) : Bool := p.head? == some [] && decide (2 ≤ p.length)
+
+/-- Choice-driven relative reference for `t` against `base`:
     0 absolute, 1 network-path, 2 absolute-path, 3 path-relative (`../` as needed),
-    4 same-document (query/fragment only) — each falls back to the previous one when not applicable. -/
+    4 same-document (query/fragment only) — each falls back to an earlier one when not applicable. -/
 def relativize (base t : Ref) (k : Nat) : Ref :=
   let sameScheme := decide (t.scheme = base.scheme) && t.scheme.isSome
-  let sameAuth := sameScheme && decide (t.auth = base.auth) && t.auth.isSome
-  if k = 0 ∨ !sameScheme then t
-  else if k = 1 ∨ !sameAuth then { t with scheme := none }
-  else if k = 2 ∨ t.path.head? ≠ some [] ∨ base.path.head? ≠ some [] then
-    { t with scheme := none, auth := none }
+  let sameAuth := sameScheme && decide (t.auth = base.auth)
+  if k = 0 ∨ !sameScheme ∨ t.auth.isNone then t
+  else if k = 1 ∨ !sameAuth ∨ !absPath t.path ∨ !absPath base.path then { t with scheme := none }
+  else if k = 2 then { t with scheme := none, auth := none }
   else if k ≥ 4 ∧ t.path = base.path ∧ (t.query.isSome ∨ base.query.isNone) then
     { scheme := none, auth := none, path := [[]], query := t.query, frag := t.frag }
   else
     -- path-relative: drop the common directory prefix, climb out of the rest of the base directory
     let bdir := base.path.dropLast
     let n := commonLen bdir t.path.dropLast
-    let ups := List.replicate (bdir.length - n) dotdot
-    let rest := t.path.drop n
-    -- a first piece that is empty or contains ':' would be misread (absolute path / scheme): use "./" prefix
-    let rel := ups ++ rest
+    let rel := List.replicate (bdir.length - n) dotdot ++ t.path.drop n
+    -- a first piece that is empty or contains ':' would be misread (absolute path / scheme): use "./"
     let rel := if (rel.head?.map (fun (s : Str) => s.isEmpty || s.contains ':')).getD true then dot :: rel else rel
     { scheme := none, auth := none, path := rel, query := t.query, frag := t.frag }
 
